@@ -30,7 +30,7 @@ RULE = ('a case = 3 generated classes with random subsets of 19 features (proper
         'the case has a counted feature); distinct by generated source.')
 ASSUMPTIONS = ['__getattr__/__getattribute__/__dir__ are outside the statement\'s list: logged only',
                'plain attribute = instance __dict__ entry, non-descriptor class attribute or slot']
-SIZES = {'quick': 64, 'thorough': 2000}
+SIZES = {'quick': 64, 'thorough': 600}
 TIMEOUT = {'quick': 1500, 'thorough': 5 * 3600}
 COUNTED = ('property', '__get__', 'metaclass property', '__getitem__', '__iter__', '__next__',
            '__call__', '__len__', '__bool__')
